@@ -63,6 +63,7 @@ def _run_unit(job):
                 if not o.get("keep_smt2"):
                     pass
             r["assumptions"] = sorted(eng.assumptions)
+            r["entered"] = sorted(eng.entered)
             out.append(r)
         return dict(ok=True, units=out, wall=time.time() - t0, job=(modname, fname, kwargs))
     except Exception:  # pylint: disable=broad-except
@@ -214,6 +215,7 @@ def main(prop, tier="quick", only=None):
     backends = {}
     for o in obs:
         backends[o.get("backend", "?")] = backends.get(o.get("backend", "?"), 0) + 1
+    interpreted = sorted({f_ for u in all_units for f_ in u.get("entered", []) if not f_.endswith(".<lambda>")})
     cvc5 = {}
     for o in obs:
         if "cvc5" in o:
@@ -237,11 +239,12 @@ def main(prop, tier="quick", only=None):
             trusted_base=list(getattr(mod, "TRUSTED", [])),
             samples=samples,
             functions_under_contract=sorted(funcs.values(), key=lambda f: f["function"]),
-            by_kind=by_kind, backends=backends, cvc5_recheck=cvc5 or None, mutation_selftest=selftest,
+            by_kind=by_kind, backends=backends, functions_interpreted=interpreted, cvc5_recheck=cvc5 or None, mutation_selftest=selftest,
             solver_seconds=round(sum(o.get("secs", 0.0) for o in obs), 3),
             bounded_standins=[dict(obligation="%s::%s" % (o["unit"], o["label"]), status=o["status"], bound=o.get("bound"), cases=o.get("cases"))
                               for o in other_obs if o["kind"] == "bounded"],
             runtime_checks=[dict(obligation="%s::%s" % (o["unit"], o["label"]), status=o["status"], cases=o.get("cases")) for o in other_obs if o["kind"] == "rac"],
+            region_restricted_count=len(region),
             region_restricted=[dict(obligation="%s::%s" % (o["unit"], o["label"]), witness=o.get("witness")) for o in region][:20],
             known_findings=[dict(id=f["id"], text=f["text"], still_failing=f.get("_still"), observed=f.get("_observed")) for f in findings],
             undecided=["%s::%s: %s" % (o["unit"], o["label"], o.get("detail", "")[:200]) for o in undecided][:20],
